@@ -1,6 +1,6 @@
 (** C03 — Exit status and foul flag follow the documented interpretation
     rules.  Statements only; proofs in Proofs/VerdictProofs.v. *)
-From Shk Require Import Base.Prelude Model.Verdict Proofs.VerdictProofs.
+From Shk Require Import Base.Prelude Model.Verdict Proofs.VerdictProofs Model.RunStage Proofs.RunStageProofs.
 From Coq Require Import String.
 Open Scope list_scope.
 
@@ -115,3 +115,48 @@ Example c03_nonvacuous :
   /\ fouled [("al", (FIgnore, FZero))]%string (fst (collector_run [("al", (FIgnore, FZero))]%string false tally0 [("al", 2); ("al", 0)]%string%Z)) = false
   /\ conduct_result true [CP; CS; CA] {| o_p := []; o_s := []; o_a := []; o_c := [KAudit; KCancel] |} [KAudit] [] = [KAudit].
 Proof. vm_compute. repeat split. Qed.
+
+(** "... or a directory/upload operation failed": the end of [run] (plot
+    scripts, removal of the artifacts, result.js, index.html, upload, --clear;
+    Model/RunStage.v), for every combination of flags, every set of failing
+    operations and every error returned by the play: the error [run] returns
+    is exactly the play's own error followed by the failure of every operation
+    that was executed and failed — nothing dropped, nothing invented ... *)
+Theorem c03_run_keeps_every_failure : forall f fails play,
+  fst (run_stage f fails play) = play ++ flat_map (op_err fails) (snd (run_stage f fails play)).
+Proof. exact run_result_exact. Qed.
+
+(** ... so the exit status is non-zero exactly when the play failed or an
+    executed directory / upload operation failed. *)
+Theorem c03_run_exit_iff_play_or_operation_failed : forall f fails play,
+  run_exit_nonzero f fails play = true <->
+  play <> [] \/ exists d, In d (snd (run_stage f fails play)) /\ fails d = true.
+Proof. exact run_exit_iff. Qed.
+
+(** Which operations are executed: the upload exactly when the play was not
+    interrupted by a signal; --clear only after a play without error whose
+    every other operation succeeded; the artifacts are removed exactly after a
+    play and plot without error, unless -k or --clear. *)
+Theorem c03_upload_iff_not_interrupted : forall f fails play,
+  In DUpload (snd (run_stage f fails play)) <-> is_interrupted play = false.
+Proof. exact upload_iff_not_interrupted. Qed.
+
+Theorem c03_clear_only_on_success : forall f fails play,
+  In DRmAll (snd (run_stage f fails play)) ->
+  f_clear f = true /\ play = [] /\
+  forall d, d <> DRmAll -> In d (snd (run_stage f fails play)) -> fails d = false.
+Proof. exact clear_only_on_success. Qed.
+
+Theorem c03_artifacts_removed_iff : forall f fails play,
+  In DRmArtifacts (snd (run_stage f fails play)) <->
+  play = [] /\ (f_noplot f = true \/ fails DPlot = false) /\ f_clear f = false /\ f_keep f = false.
+Proof. exact artifacts_removed_iff. Qed.
+
+Example c03_run_nonvacuous :
+  run_stage {| f_clear := true; f_keep := false; f_noplot := false |}
+            (fun d => dop_eqb d DRmAll) [] =
+    ([ROp DRmAll], [DPlot; DWriteResult; DWriteHtml; DUpload; DRmAll]) /\
+  run_stage {| f_clear := false; f_keep := false; f_noplot := true |}
+            (fun d => dop_eqb d DWriteHtml) [RPlay true] =
+    ([RPlay true; ROp DWriteHtml], [DWriteResult; DWriteHtml]).
+Proof. vm_compute. split; reflexivity. Qed.
